@@ -138,9 +138,6 @@ def request : P String := do
       else
         -- `assert np.isscalar(self.dim)` (B-spline); NURBS are scalar/vector by construction
         if (!F.nurbs) && F.vshape.length ≥ 2 then pure "err-AssertionError" else
-        -- `hess[..., i_hess] = apply_tprod(ops, self.coeffs)` with a trailing axis of length 1: numpy can
-        -- assign shape N+(1,) into shape N only if every grid length is 1
-        if (!F.nurbs) && F.vshape == [1] && lens.any (· ≠ 1) then pure "err-ValueError" else
         let nh := (S.sdim * (S.sdim + 1)) / 2
         if F.nurbs then
           pure (showArr (lens ++ outShape F ++ [nh]) (nodes.flatMap (fun g =>
@@ -149,7 +146,8 @@ def request : P String := do
               ((List.range F.ncomp).map (S.gridJacRow T.B ys))
               ((List.range F.ncomp).map (S.gridHessRow T.B ys))).flatten)))
         else
-          -- `if self.dim == 1: out_shape = N + (n_hess,)` (dim==1 also for a trailing axis of length 1)
+          -- `if self.dim == 1: out_shape = N + (n_hess,)` (dim==1 also for a trailing axis of length 1;
+          -- the values are `.reshape(N)`d into it since 691cf06)
           let shp := if F.ncomp == 1 then lens ++ [nh] else lens ++ F.vshape ++ [nh]
           pure (showArr shp (nodes.flatMap (fun g =>
             ((List.range F.ncomp).map (S.gridHessRow T.B (ysOf g))).flatten)))
